@@ -139,6 +139,11 @@ func (env *specEnv) lvalue(x SExpr) []frameItem {
 		if id, ok := x.Fn.(*SIdent); ok && id.Name == "deref" {
 			return e.locItems(env.derefLoc(x), src)
 		}
+		if id, ok := x.Fn.(*SIdent); ok && id.Name == "allof" {
+			// allof(x.f): field f of every object of x's type
+			hn, hs := env.fieldHeapOf(x.Args[0])
+			return []frameItem{{Heap: hn, HeapSort: hs, Src: src}}
+		}
 		if id, ok := x.Fn.(*SIdent); ok && id.Name == "mapof" {
 			v := env.eval(x.Args[0])
 			mt, ok := v.GT.Underlying().(*types.Map)
